@@ -19,6 +19,7 @@ import (
 	"sort"
 	"strings"
 	"sync"
+	"sync/atomic"
 	"time"
 
 	"github.com/gocql/gocql"
@@ -60,6 +61,9 @@ func init() {
 			"in half of the cells with verification on, no ServerName and good files a second node 10.0.0.2 / fd00::2 is discovered through system.peers and dialled after the first, presenting its own certificate (only SAN: its own address) or, in a third of those, the first node's (probes tls.two-nodes*); " +
 			"core table = 14 rows x chain trusted/untrusted x 5 certificates = 140 cells (probe tls.cell:*). " +
 			"Authentication half: class demanded {none, each of the 10 built-in approved classes, a class only on the caller's list, unknown, 4 near-misses of an approved class} x client {none, PasswordAuthenticator default list, custom list, custom list + one default, AuthProvider} x 7 credential pairs x control connection on/off (probe auth.cell:*). " +
+			"Session creation repeated on the same objects: in a third of the TLS cells NewSession(*cfg) / cfg.CreateSession() is called a second (in a ninth a third) time with the very same ClusterConfig, *SslOptions and *tls.Config after the previous attempt finished and its session, if any, was closed; the documented outcome must hold for every attempt (fault counters tls.variant:attempts:*, probes tls.retry:*). " +
+			"Form of the password authenticator (both halves): value, pointer, user type embedding it (value / pointer), user type delegating to it (auth.variant:form:* / tls.variant:authform:*); " +
+			"AllowedAuthenticators additionally: empty non-nil, a list that contains the demanded class whatever it is, a list of near-misses of the demanded class, the default list written out plus a custom class (auth.variant:list:*, probes auth.formcell:* / auth.listcell:*). " +
 			"distinct = distinct canonical-log fingerprint; non-trivial = at least one non-default variant (tls.variant:* / auth.variant:* fault counters) and at least one completed session attempt",
 	})
 }
@@ -135,13 +139,14 @@ func (o *secConnObs) snapshot() (int, []error) {
 	return o.n, append([]error(nil), o.errs...)
 }
 
-// errorsOf returns the errors of the failed dials to one host.
-func (o *secConnObs) errorsOf(host string) []error {
+// errorsOf returns the errors of the failed dials to one host, leaving out the first
+// from failed dials observed (those of earlier session attempts of the run).
+func (o *secConnObs) errorsOf(host string, from int) []error {
 	o.mu.Lock()
 	defer o.mu.Unlock()
 	var out []error
 	for i, e := range o.errs {
-		if o.hosts[i] == host {
+		if i >= from && o.hosts[i] == host {
 			out = append(out, e)
 		}
 	}
@@ -640,6 +645,15 @@ func secTLS(e *Env) {
 	userCerts := cfgState != 0 && tp.Chance(1, 4)
 	twoDraw := tp.Chance(1, 2)
 	swapDraw := tp.Chance(1, 3)
+	// (drawn last, so that tapes recorded before these choices existed keep their meaning)
+	// session creation repeated on the very same ClusterConfig / *SslOptions / *tls.Config:
+	// 0 = one attempt, 1 = a second one, 2 = a second and a third
+	attempts := 1 + tp.Weighted([]int{6, 2, 1})
+	viaCreate := tp.Next(2) == 1 && attempts > 1 // later attempts through cfg.CreateSession()
+	authForm := tp.Next(len(secAuthForms))
+	if !authTLS {
+		authForm = 0
+	}
 	if e.NoFaults {
 		swapDraw = false
 		certKind = 0
@@ -689,6 +703,7 @@ func secTLS(e *Env) {
 		{rootSel != 0, "rootcas:" + secRootNames[rootSel]}, {certKind != 0, "cert:" + secCertNames[certKind]},
 		{caSel != 0, "capath:" + secCaNames[caSel]}, {kpSel != 0, "keypair:" + secKPNames[kpSel]}, {hostForm != 0, "host:" + secHostNames[hostForm]},
 		{control, "controlconn"}, {tls12, "tls12"}, {authTLS, "auth"}, {userCerts, "usercerts"},
+		{attempts > 1, fmt.Sprintf("attempts:%d", attempts)}, {viaCreate, "retry-via-createsession"}, {authForm != 0, "authform:" + secAuthForms[authForm]},
 	} {
 		if v.on {
 			k.Fault("tls.variant:" + v.name)
@@ -709,6 +724,14 @@ func secTLS(e *Env) {
 	if twoNodes {
 		k.Rec("cell two-nodes swapped=%v", swapped)
 		e.Note("twonodes", map[bool]string{false: "own-certs", true: "swapped"}[swapped])
+	}
+	if attempts > 1 {
+		k.Rec("cell attempts=%d later-via-createsession=%v", attempts, viaCreate)
+		e.Note("attempts", attempts)
+	}
+	if authForm != 0 {
+		k.Rec("cell authform=%s", secAuthForms[authForm])
+		e.Note("authform", secAuthForms[authForm])
 	}
 
 	// ---- addresses ----
@@ -970,240 +993,331 @@ func secTLS(e *Env) {
 			}
 		}
 	}
+	var authObj gocql.Authenticator
+	var authPA *gocql.PasswordAuthenticator
 	if authTLS {
-		cfg.Authenticator = gocql.PasswordAuthenticator{Username: authUser, Password: authPass}
+		authObj, authPA = secMakeAuth(authForm, authUser, authPass, nil)
+		cfg.Authenticator = authObj
 	}
+	sslBefore := *ssl // the caller's SslOptions as the caller wrote them
 
-	sess, serr, finished := secPump(k, 30*time.Second, nil, func() (*gocql.Session, error) { return gocql.NewSession(*cfg) })
-	k.OpDone()
-	if !finished {
-		k.Violate("HARNESS", "sec/newsession-not-finished", "NewSession did not return within 30 s simulated")
-		secFinish(k, cl, tn.hub, nil, nil, base)
-		return
+	// Every attempt is made with the same cfg (hence the same *SslOptions and *tls.Config)
+	// and judged by the same documented outcome. A clause violated by a later attempt only
+	// gets its own signature.
+	attempt := 1
+	violate := func(prop, sig, format string, args ...interface{}) {
+		if attempt > 1 && prop == "C20" {
+			sig = "C20/outcome-changes-on-second-attempt:" + strings.TrimPrefix(sig, "C20/")
+			format = fmt.Sprintf("session creation attempt %d of %d with the very same ClusterConfig / SslOptions / tls.Config objects (every earlier attempt behaved as documented and had finished; its session, if any, was closed): ", attempt, attempts) + format
+		}
+		k.Violate(prop, sig, format, args...)
 	}
-	connected := serr == nil && sess != nil
-	dials := cl.Net.Dials()
-	_, dialErrs := obs.snapshot()
-	conns := tn.snapshot()
-	accepted := false // the client completed a handshake, i.e. it accepted the certificate
-	for _, c := range conns {
-		if c.handshook {
-			accepted = true
+	probe := func(name string) {
+		if attempt > 1 {
+			name = "tls.retry:" + strings.TrimPrefix(name, "tls.")
 		}
+		k.Probe(name)
 	}
-	var certErr, nameErr, timeoutErr bool
-	var firstDialErr error
-	for _, de := range dialErrs {
-		if firstDialErr == nil {
-			firstDialErr = de
-		}
-		var cve *tls.CertificateVerificationError
-		if errors.As(de, &cve) {
-			certErr = true
-		}
-		var he x509.HostnameError
-		if errors.As(de, &he) {
-			nameErr = true
-		}
-		var ne net.Error
-		if errors.As(de, &ne) && ne.Timeout() {
-			timeoutErr = true
-		}
-	}
-	k.Rec("result connected=%v accepted=%v dials=%d dialerrors=%d certerr=%v nameerr=%v", connected, accepted, dials, len(dialErrs), certErr, nameErr)
 	desc := fmt.Sprintf("[Config %s, EnableHostVerification=%v, ServerName %s, RootCAs %s, CaPath %s, key pair %s, node presents %q certificate, host %s]",
 		secCfgNames[cfgState], ehv, secSNNames[sn], secRootNames[rootSel], secCaNames[caSel], secKPNames[kpSel], secCertNames[certKind], hostArg)
+	if authForm != 0 {
+		desc = desc[:len(desc)-1] + ", authenticator form " + secAuthForms[authForm] + "]"
+	}
 
-	verdict := func() {
-		// ---- bad files are reported, before anything is dialled ----
-		if badFile {
-			if serr == nil {
-				k.Violate("C20", "C20/bad-file-not-reported", "%s: NewSession succeeded although a configured CA / key-pair file is unreadable or unparsable", desc)
-				return
-			}
-			if dials != 0 {
-				k.Violate("C20", "C20/bad-file-dialled-before-error", "%s: NewSession failed (%v) but only after %d dial(s): the driver connected without the configured files", desc, serr, dials)
-				return
-			}
-			k.Probe("tls.badfile-reported")
-			return
+	// runAttempt makes one session creation attempt and judges it. It returns the session
+	// (nil if none was created) and whether the run can go on with another attempt.
+	runAttempt := func() (sess *gocql.Session, goOn bool) {
+		tag := ""
+		if attempt > 1 {
+			tag = fmt.Sprintf("attempt=%d ", attempt)
+			k.Probe(fmt.Sprintf("tls.retry:attempt-%d", attempt))
 		}
-
-		// ---- verification exactly when documented ----
-		switch {
-		case (connected || accepted) && !expectConnect:
-			sig := "C20/connected-without-verification"
-			why := "the certificate chain does not lead to a configured root"
-			if chainOK {
-				why = "the certificate is not valid for the name to verify"
-				if sn == 0 {
-					sig = "C20/server-name-not-host"
-					why = "no ServerName was configured, so the name to verify is the dialled host " + verifyName + ", for which the certificate is not valid"
-				}
-			}
-			k.Violate("C20", sig, "%s: the documented table says verify, %s, yet the driver completed a TLS handshake (session created=%v)", desc, why, connected)
-			return
-		case !connected && expectConnect:
-			if dials == 0 || len(dialErrs) == 0 || (timeoutErr && !certErr) {
-				// nothing was refused: the attempt died for a reason the table does not speak about
-				k.Violate("HARNESS", "sec/unexpected-failure", "%s: NewSession failed (%v) without a refused handshake: %d dial(s), first dial error: %v", desc, serr, dials, firstDialErr)
-				return
-			}
-			switch {
-			case !verify && certErr:
-				k.Violate("C20", "C20/verified-when-disabled", "%s: the documented table says do not verify, yet the handshake failed verification: %v", desc, firstDialErr)
-			case verify && sn == 0 && nameErr:
-				k.Violate("C20", "C20/server-name-not-host", "%s: the certificate is valid for the dialled host %s and chains to a configured root, yet it was refused for its name: %v", desc, verifyName, firstDialErr)
-			case verify:
-				k.Violate("C20", "C20/refused-valid-server", "%s: the certificate chains to a configured root and matches the name to verify, yet the connection was refused: %v", desc, firstDialErr)
-			default:
-				k.Violate("C20", "C20/refused-valid-server", "%s: the documented table says do not verify, so any certificate is acceptable, yet the connection was refused: %v", desc, firstDialErr)
-			}
-			return
-		case !connected:
-			if !certErr {
-				k.Violate("HARNESS", "sec/unexpected-failure", "%s: expected a certificate verification failure, got %v (first dial error: %v)", desc, serr, firstDialErr)
-				return
-			}
-			k.Probe("tls.refused-as-documented")
-			return
+		// what earlier attempts left behind does not belong to this one
+		dials0 := cl.Net.Dials()
+		_, errsBefore := obs.snapshot()
+		errs0 := len(errsBefore)
+		conns0 := len(tn.snapshot())
+		create := func() (*gocql.Session, error) { return gocql.NewSession(*cfg) }
+		if attempt > 1 && viaCreate {
+			create = cfg.CreateSession
 		}
-		k.Probe("tls.connected-as-documented")
+		sess, serr, finished := secPump(k, 30*time.Second, nil, create)
+		k.OpDone()
+		if !finished {
+			k.Violate("HARNESS", "sec/newsession-not-finished", "%sNewSession did not return within 30 s simulated", tag)
+			return nil, false
+		}
+		connected := serr == nil && sess != nil
+		dials := cl.Net.Dials() - dials0
+		_, dialErrs := obs.snapshot()
+		dialErrs = dialErrs[errs0:]
+		conns := tn.snapshot()[conns0:]
+		accepted := false // the client completed a handshake, i.e. it accepted the certificate
+		for _, c := range conns {
+			if c.handshook {
+				accepted = true
+			}
+		}
+		var certErr, nameErr, timeoutErr bool
+		var firstDialErr error
+		for _, de := range dialErrs {
+			if firstDialErr == nil {
+				firstDialErr = de
+			}
+			var cve *tls.CertificateVerificationError
+			if errors.As(de, &cve) {
+				certErr = true
+			}
+			var he x509.HostnameError
+			if errors.As(de, &he) {
+				nameErr = true
+			}
+			var ne net.Error
+			if errors.As(de, &ne) && ne.Timeout() {
+				timeoutErr = true
+			}
+		}
+		k.Rec("result %sconnected=%v accepted=%v dials=%d dialerrors=%d certerr=%v nameerr=%v", tag, connected, accepted, dials, len(dialErrs), certErr, nameErr)
 
-		// ---- a valid key pair is used ----
-		if kpSel == 1 {
-			for _, c := range conns {
-				if c.handshook && c.clientCerts == 0 {
-					k.Violate("C20", "C20/client-cert-not-presented", "%s: connection %s completed a handshake in which the node asked for a client certificate and got none, although CertPath/KeyPath name a valid key pair", desc, c.name)
+		verdict := func() {
+			// ---- bad files are reported, before anything is dialled ----
+			if badFile {
+				if serr == nil {
+					violate("C20", "C20/bad-file-not-reported", "%s: NewSession succeeded although a configured CA / key-pair file is unreadable or unparsable", desc)
 					return
 				}
+				if dials != 0 {
+					violate("C20", "C20/bad-file-dialled-before-error", "%s: NewSession failed (%v) but only after %d dial(s): the driver connected without the configured files", desc, serr, dials)
+					return
+				}
+				probe("tls.badfile-reported")
+				return
 			}
-			k.Probe("tls.client-cert-presented")
-		}
-		// ---- credentials over TLS ----
-		if authTLS {
-			want := "\x00" + authUser + "\x00" + authPass
-			nTok := 0
-			for _, c := range conns {
-				for _, t := range c.tokens {
-					nTok++
-					if string(t) != want {
-						k.Violate("C20", "C20/not-sasl-plain", "%s: AUTH_RESPONSE token on %s is %d bytes and differs from NUL user NUL password (%d bytes)", desc, c.name, len(t), len(want))
+
+			// ---- verification exactly when documented ----
+			switch {
+			case (connected || accepted) && !expectConnect:
+				sig := "C20/connected-without-verification"
+				why := "the certificate chain does not lead to a configured root"
+				if chainOK {
+					why = "the certificate is not valid for the name to verify"
+					if sn == 0 {
+						sig = "C20/server-name-not-host"
+						why = "no ServerName was configured, so the name to verify is the dialled host " + verifyName + ", for which the certificate is not valid"
+					}
+				}
+				violate("C20", sig, "%s: the documented table says verify, %s, yet the driver completed a TLS handshake (session created=%v)", desc, why, connected)
+				return
+			case !connected && expectConnect:
+				if dials == 0 || len(dialErrs) == 0 || (timeoutErr && !certErr) {
+					// nothing was refused: the attempt died for a reason the table does not speak about
+					violate("HARNESS", "sec/unexpected-failure", "%s: NewSession failed (%v) without a refused handshake: %d dial(s), first dial error: %v", desc, serr, dials, firstDialErr)
+					return
+				}
+				switch {
+				case !verify && certErr:
+					violate("C20", "C20/verified-when-disabled", "%s: the documented table says do not verify, yet the handshake failed verification: %v", desc, firstDialErr)
+				case verify && sn == 0 && nameErr:
+					violate("C20", "C20/server-name-not-host", "%s: the certificate is valid for the dialled host %s and chains to a configured root, yet it was refused for its name: %v", desc, verifyName, firstDialErr)
+				case verify:
+					violate("C20", "C20/refused-valid-server", "%s: the certificate chains to a configured root and matches the name to verify, yet the connection was refused: %v", desc, firstDialErr)
+				default:
+					violate("C20", "C20/refused-valid-server", "%s: the documented table says do not verify, so any certificate is acceptable, yet the connection was refused: %v", desc, firstDialErr)
+				}
+				return
+			case !connected:
+				if !certErr {
+					violate("HARNESS", "sec/unexpected-failure", "%s: expected a certificate verification failure, got %v (first dial error: %v)", desc, serr, firstDialErr)
+					return
+				}
+				probe("tls.refused-as-documented")
+				return
+			}
+			probe("tls.connected-as-documented")
+
+			// ---- a valid key pair is used ----
+			if kpSel == 1 {
+				for _, c := range conns {
+					if c.handshook && c.clientCerts == 0 {
+						violate("C20", "C20/client-cert-not-presented", "%s: connection %s completed a handshake in which the node asked for a client certificate and got none, although CertPath/KeyPath name a valid key pair", desc, c.name)
 						return
 					}
 				}
-				if c.unauthOp != "" {
-					k.Violate("C20", "C20/unauthenticated-session", "%s: %s sent %s on a connection that owed authentication", desc, c.name, c.unauthOp)
-					return
-				}
+				probe("tls.client-cert-presented")
 			}
-			if nTok == 0 {
-				k.Violate("C20", "C20/unauthenticated-session", "%s: a session exists although the node demanded authentication and never saw an AUTH_RESPONSE", desc)
-				return
-			}
-			k.Probe("tls.auth-over-tls")
-		}
-		// ---- every node is verified against its own address ----
-		if twoNodes {
-			k.Probe("tls.two-nodes")
-			bState := func() (handshook bool, dialled bool) {
-				for _, c := range tn.snapshot() {
-					if c.host == addrB {
-						dialled = true
-						if c.handshook {
-							handshook = true
+			// ---- credentials over TLS ----
+			if authTLS {
+				want := "\x00" + authUser + "\x00" + authPass
+				nTok := 0
+				for _, c := range conns {
+					for _, t := range c.tokens {
+						nTok++
+						if string(t) != want {
+							violate("C20", "C20/not-sasl-plain", "%s: AUTH_RESPONSE token on %s is %d bytes and differs from NUL user NUL password (%d bytes)", desc, c.name, len(t), len(want))
+							return
 						}
 					}
+					if c.unauthOp != "" {
+						violate("C20", "C20/unauthenticated-session", "%s: %s sent %s on a connection that owed authentication", desc, c.name, c.unauthOp)
+						return
+					}
 				}
-				return
-			}
-			// the pool of the second node fills in the background: give it time. A
-			// refusal is final once the driver has seen it; an acceptance may still come.
-			wait := 10 * time.Second
-			if swapped {
-				wait = 2 * time.Second
-			}
-			deadline := time.Now().Add(wait)
-			for {
-				k.Quiesce()
-				hs, _ := bState()
-				if hs || (!swapped && len(obs.errorsOf(addrB)) > 0) || time.Now().After(deadline) {
-					break
-				}
-				time.Sleep(50 * time.Millisecond)
-			}
-			hs, dialledB := bState()
-			errsB := obs.errorsOf(addrB)
-			var certErrB, nameErrB bool
-			var firstB error
-			for _, de := range errsB {
-				if firstB == nil {
-					firstB = de
-				}
-				var cve *tls.CertificateVerificationError
-				if errors.As(de, &cve) {
-					certErrB = true
-				}
-				var he x509.HostnameError
-				if errors.As(de, &he) {
-					nameErrB = true
-				}
-			}
-			k.Rec("result two-nodes b-dialled=%v b-handshook=%v b-dialerrors=%d certerr=%v nameerr=%v", dialledB, hs, len(errsB), certErrB, nameErrB)
-			switch {
-			case swapped && hs:
-				k.Violate("C20", "C20/connected-without-verification", "%s: second node %s (discovered through system.peers, dialled after %s) presents the certificate of %s, whose only SAN is %s; verification is on and no ServerName is configured, so the name to verify is %s, yet the driver completed a TLS handshake with it",
-					desc, addrB, addr, addr, addr, addrB)
-				return
-			case swapped:
-				if !dialledB {
-					k.Violate("HARNESS", "sec/second-node-not-dialled", "%s: the driver never dialled the second node %s within %v", desc, addrB, wait)
+				if nTok == 0 {
+					violate("C20", "C20/unauthenticated-session", "%s: a session exists although the node demanded authentication and never saw an AUTH_RESPONSE", desc)
 					return
 				}
-				k.Probe("tls.two-nodes:swapped-cert-refused")
-			case hs:
-				k.Probe("tls.two-nodes:b-verified-by-own-name")
-			case !dialledB:
-				k.Violate("HARNESS", "sec/second-node-not-dialled", "%s: the driver never dialled the second node %s within %v", desc, addrB, wait)
-				return
-			case certErrB && nameErrB:
-				k.Violate("C20", "C20/server-name-not-host", "%s: second node %s (discovered through system.peers, dialled after %s through the same session) presents a certificate from a trusted CA whose SAN is its own address %s; no ServerName is configured, so that is the name to verify, yet the certificate was refused for its name: %v",
-					desc, addrB, addr, addrB, firstB)
-				return
-			case certErrB:
-				k.Violate("C20", "C20/refused-valid-server", "%s: second node %s presents a certificate from a trusted CA valid for its own address, yet it was refused: %v", desc, addrB, firstB)
-				return
-			default:
-				k.Violate("HARNESS", "sec/second-node-not-connected", "%s: no established connection to the second node %s within %v and no certificate error (first dial error: %v)", desc, addrB, wait, firstB)
-				return
+				probe("tls.auth-over-tls")
+			}
+			// ---- every node is verified against its own address ----
+			if twoNodes {
+				probe("tls.two-nodes")
+				bState := func() (handshook bool, dialled bool) {
+					for _, c := range tn.snapshot()[conns0:] {
+						if c.host == addrB {
+							dialled = true
+							if c.handshook {
+								handshook = true
+							}
+						}
+					}
+					return
+				}
+				// the pool of the second node fills in the background: give it time. A
+				// refusal is final once the driver has seen it; an acceptance may still come.
+				wait := 10 * time.Second
+				if swapped {
+					wait = 2 * time.Second
+				}
+				deadline := time.Now().Add(wait)
+				for {
+					k.Quiesce()
+					hs, _ := bState()
+					if hs || (!swapped && len(obs.errorsOf(addrB, errs0)) > 0) || time.Now().After(deadline) {
+						break
+					}
+					time.Sleep(50 * time.Millisecond)
+				}
+				hs, dialledB := bState()
+				errsB := obs.errorsOf(addrB, errs0)
+				var certErrB, nameErrB bool
+				var firstB error
+				for _, de := range errsB {
+					if firstB == nil {
+						firstB = de
+					}
+					var cve *tls.CertificateVerificationError
+					if errors.As(de, &cve) {
+						certErrB = true
+					}
+					var he x509.HostnameError
+					if errors.As(de, &he) {
+						nameErrB = true
+					}
+				}
+				k.Rec("result "+tag+"two-nodes b-dialled=%v b-handshook=%v b-dialerrors=%d certerr=%v nameerr=%v", dialledB, hs, len(errsB), certErrB, nameErrB)
+				switch {
+				case swapped && hs:
+					violate("C20", "C20/connected-without-verification", "%s: second node %s (discovered through system.peers, dialled after %s) presents the certificate of %s, whose only SAN is %s; verification is on and no ServerName is configured, so the name to verify is %s, yet the driver completed a TLS handshake with it",
+						desc, addrB, addr, addr, addr, addrB)
+					return
+				case swapped:
+					if !dialledB {
+						violate("HARNESS", "sec/second-node-not-dialled", "%s: the driver never dialled the second node %s within %v", desc, addrB, wait)
+						return
+					}
+					probe("tls.two-nodes:swapped-cert-refused")
+				case hs:
+					probe("tls.two-nodes:b-verified-by-own-name")
+				case !dialledB:
+					violate("HARNESS", "sec/second-node-not-dialled", "%s: the driver never dialled the second node %s within %v", desc, addrB, wait)
+					return
+				case certErrB && nameErrB:
+					violate("C20", "C20/server-name-not-host", "%s: second node %s (discovered through system.peers, dialled after %s through the same session) presents a certificate from a trusted CA whose SAN is its own address %s; no ServerName is configured, so that is the name to verify, yet the certificate was refused for its name: %v",
+						desc, addrB, addr, addrB, firstB)
+					return
+				case certErrB:
+					violate("C20", "C20/refused-valid-server", "%s: second node %s presents a certificate from a trusted CA valid for its own address, yet it was refused: %v", desc, addrB, firstB)
+					return
+				default:
+					violate("HARNESS", "sec/second-node-not-connected", "%s: no established connection to the second node %s within %v and no certificate error (first dial error: %v)", desc, addrB, wait, firstB)
+					return
+				}
+			}
+			// ---- the session works ----
+			_, qerr, ok := secPump(k, 10*time.Second, nil, func() (struct{}, error) {
+				return struct{}{}, sess.Query("ECHO 'sec'").Exec() // not a statement the driver prepares
+			})
+			k.OpDone()
+			if !ok || qerr != nil {
+				violate("HARNESS", "sec/query-failed", "%s: a query on the established session failed: %v (finished=%v)", desc, qerr, ok)
 			}
 		}
-		// ---- the session works ----
-		_, qerr, ok := secPump(k, 10*time.Second, nil, func() (struct{}, error) {
-			return struct{}{}, sess.Query("ECHO 'sec'").Exec() // not a statement the driver prepares
-		})
-		k.OpDone()
-		if !ok || qerr != nil {
-			k.Violate("HARNESS", "sec/query-failed", "%s: a query on the established session failed: %v (finished=%v)", desc, qerr, ok)
-		}
-	}
-	verdict()
+		verdict()
 
-	// ---- the caller's configuration is left alone, whatever the outcome (judged last, so
-	// that a known finding here does not hide a wrong verification outcome of the cell) ----
-	if user != nil && k.Violation() == nil {
-		switch {
-		case user.InsecureSkipVerify != snapISV || user.ServerName != snapSN || user.RootCAs != snapRoots || len(user.Certificates) != snapNCerts:
-			k.Violate("C20", "C20/user-config-mutated", "%s: the caller's tls.Config changed: InsecureSkipVerify %v->%v, ServerName %q->%q, RootCAs pointer changed=%v, len(Certificates) %d->%d",
-				desc, snapISV, user.InsecureSkipVerify, snapSN, user.ServerName, user.RootCAs != snapRoots, snapNCerts, len(user.Certificates))
-		case userPoolBefore != nil && !userPool.Equal(userPoolBefore):
-			k.Violate("C20", "C20/user-config-rootcas-pool-mutated", "%s: the certificate pool the caller's tls.Config.RootCAs points to was modified by session creation (the certificates of CaPath were added to the caller's own pool, which now trusts CAs the caller did not put there, in every tls.Config sharing it)", desc)
-		case userCertArr != nil:
-			if spare := userCertArr[:cap(userCertArr)]; len(spare[1].Certificate) != 0 {
-				// client identity, not a verification setting: observed, not judged
-				k.Probe("tls.user-certificates-spare-capacity-written")
+		// ---- the caller's configuration is left alone, whatever the outcome (judged last, so
+		// that a known finding here does not hide a wrong verification outcome of the cell) ----
+		if *ssl != sslBefore && k.Violation() == nil {
+			violate("C20", "C20/user-ssloptions-mutated", "%s: the caller's SslOptions changed: Config pointer changed=%v, EnableHostVerification %v->%v, CaPath %q->%q, CertPath %q->%q, KeyPath %q->%q",
+				desc, ssl.Config != sslBefore.Config, sslBefore.EnableHostVerification, ssl.EnableHostVerification, sslBefore.CaPath, ssl.CaPath, sslBefore.CertPath, ssl.CertPath, sslBefore.KeyPath, ssl.KeyPath)
+		}
+		if user != nil && k.Violation() == nil {
+			switch {
+			case user.InsecureSkipVerify != snapISV || user.ServerName != snapSN || user.RootCAs != snapRoots || len(user.Certificates) != snapNCerts:
+				violate("C20", "C20/user-config-mutated", "%s: the caller's tls.Config changed: InsecureSkipVerify %v->%v, ServerName %q->%q, RootCAs pointer changed=%v, len(Certificates) %d->%d",
+					desc, snapISV, user.InsecureSkipVerify, snapSN, user.ServerName, user.RootCAs != snapRoots, snapNCerts, len(user.Certificates))
+			case userPoolBefore != nil && !userPool.Equal(userPoolBefore):
+				violate("C20", "C20/user-config-rootcas-pool-mutated", "%s: the certificate pool the caller's tls.Config.RootCAs points to was modified by session creation (the certificates of CaPath were added to the caller's own pool, which now trusts CAs the caller did not put there, in every tls.Config sharing it)", desc)
+			case userCertArr != nil:
+				if spare := userCertArr[:cap(userCertArr)]; len(spare[1].Certificate) != 0 {
+					// client identity, not a verification setting: observed, not judged
+					probe("tls.user-certificates-spare-capacity-written")
+				}
 			}
 		}
+		if authPA != nil && (authPA.Username != authUser || authPA.Password != authPass || authPA.AllowedAuthenticators != nil) {
+			k.Probe("tls.authenticator-object-modified") // observed, not judged
+		}
+		return sess, k.Violation() == nil
+	}
+
+	var sess *gocql.Session
+	for {
+		var goOn bool
+		sess, goOn = runAttempt()
+		if !goOn || attempt == attempts {
+			break
+		}
+		// the caller gives up on this session (or has none) and tries again
+		if sess != nil {
+			s := sess
+			sess = nil
+			_, _, ok := secPump(k, 60*time.Second, nil, func() (struct{}, error) { s.Close(); return struct{}{}, nil })
+			if !ok {
+				k.Violate("C17", "C17/session-close-hangs", "sec: Session.Close did not return within 60 s simulated")
+				break
+			}
+			k.Probe("tls.retry:after-success")
+		} else {
+			k.Probe("tls.retry:after-failure")
+		}
+		// let what the finished attempt left behind end (bounded like secFinish; what stays
+		// after that is judged at the end of the run)
+		deadline := time.Now().Add(35 * time.Second)
+		for tick := 10 * time.Millisecond; ; {
+			k.Quiesce()
+			if runtime.NumGoroutine() <= base {
+				break
+			}
+			if time.Now().After(deadline) {
+				k.Probe("tls.retry:previous-attempt-not-settled")
+				break
+			}
+			time.Sleep(tick)
+			if tick < time.Second {
+				tick *= 4
+			}
+		}
+		attempt++
 	}
 	secFinish(k, cl, tn.hub, nil, sess, base)
 }
@@ -1238,6 +1352,53 @@ var secCreds = [][2]string{
 	{"a b\tc", "p:w=\"x\" y\\z"},
 }
 
+// The legal ways of handing the driver a password authenticator. gocql's documentation
+// shows the plain value; a pointer satisfies the Authenticator interface as well (the
+// methods have value receivers), and so does any type of the caller's that embeds a
+// PasswordAuthenticator or forwards Challenge / Success to one.
+var secAuthForms = []string{"value", "pointer", "embedded", "embedded-pointer", "delegating"}
+
+// secEmbedAuth is a caller's type that adds something of its own to the password
+// authenticator; Challenge and Success are the promoted methods.
+type secEmbedAuth struct {
+	gocql.PasswordAuthenticator
+	Tenant string
+}
+
+// secDelegAuth is a caller's type that forwards to a password authenticator it holds.
+type secDelegAuth struct {
+	inner      gocql.Authenticator
+	challenges atomic.Int32
+}
+
+func (d *secDelegAuth) Challenge(req []byte) ([]byte, gocql.Authenticator, error) {
+	d.challenges.Add(1)
+	return d.inner.Challenge(req)
+}
+
+func (d *secDelegAuth) Success(data []byte) error { return d.inner.Success(data) }
+
+// secMakeAuth returns the authenticator in the given form and the PasswordAuthenticator
+// object the driver can reach through it (nil for the by-value forms, of which the
+// driver only ever sees copies).
+func secMakeAuth(form int, user, pass string, allowed []string) (gocql.Authenticator, *gocql.PasswordAuthenticator) {
+	pa := gocql.PasswordAuthenticator{Username: user, Password: pass, AllowedAuthenticators: allowed}
+	switch form {
+	case 1:
+		return &pa, &pa
+	case 2:
+		return secEmbedAuth{PasswordAuthenticator: pa, Tenant: "tenant-1"}, nil
+	case 3:
+		w := &secEmbedAuth{PasswordAuthenticator: pa, Tenant: "tenant-1"}
+		return w, &w.PasswordAuthenticator
+	case 4:
+		return &secDelegAuth{inner: &pa}, &pa
+	}
+	return pa, nil
+}
+
+var secListVarNames = []string{"column", "empty-nonnil", "contains-demanded", "near-misses-only", "defaults+custom"}
+
 func secAuth(e *Env) {
 	k := e.K
 	tp := k.Tape
@@ -1262,6 +1423,14 @@ func secAuth(e *Env) {
 	cred := tp.Next(len(secCreds))
 	control := tp.Next(2) == 1
 	numConns := 1 + tp.Next(2)
+	// (drawn last, so that tapes recorded before these choices existed keep their meaning)
+	// form: how the caller hands over the password authenticator (index into secAuthForms)
+	form := tp.Next(len(secAuthForms))
+	// listVar: 0 = the AllowedAuthenticators of the client column; 1 = an empty non-nil slice where
+	// the column has nil; 2 = a custom list that contains the demanded class, whatever it is, last
+	// of three; 3 = a custom list of near-misses of the demanded class and every built-in class but
+	// the demanded one; 4 = the built-in list written out plus a custom class
+	listVar := tp.Weighted([]int{6, 1, 2, 2, 1})
 	if e.NoFaults {
 		// fault-free configuration: an approved class and a client with credentials
 		if ci >= 10 {
@@ -1270,8 +1439,20 @@ func secAuth(e *Env) {
 		if cli == 1 || cli == 2 {
 			cli = 0
 		}
+		if listVar == 3 {
+			listVar = 0
+		}
 	}
 	class := classes[ci]
+	if cli == 1 {
+		form, listVar = 0, 0 // no authenticator at all
+	}
+	if class == "" && (listVar == 2 || listVar == 3) {
+		listVar = 0 // nothing is demanded
+	}
+	if (cli == 2 || cli == 3) && listVar == 1 {
+		listVar = 0 // the column has a list of its own
+	}
 	user, pass := secCreds[cred][0], secCreds[cred][1]
 	for _, v := range []struct {
 		on   bool
@@ -1279,6 +1460,7 @@ func secAuth(e *Env) {
 	}{
 		{ci != 0, "class:" + classNames[ci]}, {cli != 0, "client:" + clientNames[cli]}, {cred != 0, fmt.Sprintf("cred:%d", cred)},
 		{control, "controlconn"}, {numConns != 1, "numconns:2"},
+		{form != 0, "form:" + secAuthForms[form]}, {listVar != 0, "list:" + secListVarNames[listVar]},
 	} {
 		if v.on {
 			k.Fault("auth.variant:" + v.name)
@@ -1290,6 +1472,14 @@ func secAuth(e *Env) {
 	e.Note("cred", cred)
 	k.Rec("cell class=%s client=%s cred=%d control=%v numconns=%d", classNames[ci], clientNames[cli], cred, control, numConns)
 	k.Probe("auth.cell:" + classNames[ci] + "/" + clientNames[cli])
+	if form != 0 {
+		e.Note("form", secAuthForms[form])
+		k.Rec("cell form=%s", secAuthForms[form])
+	}
+	if listVar != 0 {
+		e.Note("list", secListVarNames[listVar])
+		k.Rec("cell list=%s", secListVarNames[listVar])
+	}
 
 	// ---- expected outcome, from the property text ----
 	var allowed []string
@@ -1299,6 +1489,22 @@ func secAuth(e *Env) {
 	case 3:
 		allowed = []string{secCustomClass, secDefaultApproved[0]}
 	}
+	switch listVar {
+	case 1:
+		allowed = []string{}
+	case 2:
+		allowed = []string{secCustomClass, "org.example.auth.SomethingElse", class}
+	case 3:
+		allowed = []string{class + " ", " " + class, strings.ToUpper(class), class[:len(class)-1], class + "\x00", secCustomClass + "2"}
+		for _, d := range secDefaultApproved {
+			if d != class {
+				allowed = append(allowed, d)
+			}
+		}
+	case 4:
+		allowed = append(append([]string(nil), secDefaultApproved...), secCustomClass)
+	}
+	allowedBefore := append([]string(nil), allowed...)
 	hasAuth := cli != 1
 	approvedList := secDefaultApproved
 	if len(allowed) > 0 {
@@ -1315,6 +1521,14 @@ func secAuth(e *Env) {
 	expectToken := demand && hasAuth && approved
 	wantToken := "\x00" + user + "\x00" + pass
 	k.Rec("expect demand=%v hasauth=%v approved=%v session=%v", demand, hasAuth, approved, expectSession)
+	if hasAuth {
+		state := "nodemand"
+		if demand {
+			state = map[bool]string{true: "approved", false: "unapproved"}[approved]
+		}
+		k.Probe("auth.formcell:" + secAuthForms[form] + "/" + map[bool]string{false: "authenticator", true: "authprovider"}[cli == 4] + "/" + state)
+		k.Probe("auth.listcell:" + secListVarNames[listVar] + "/" + state)
+	}
 
 	// ---- the node ----
 	cl := node.NewCluster(k, 1)
@@ -1349,12 +1563,13 @@ func secAuth(e *Env) {
 	if !control {
 		gocql.VerifDisableControlConn(cfg, true)
 	}
-	pa := gocql.PasswordAuthenticator{Username: user, Password: pass, AllowedAuthenticators: allowed}
+	authObj, authPA := secMakeAuth(form, user, pass, allowed)
 	switch cli {
 	case 0, 2, 3:
-		cfg.Authenticator = pa
+		cfg.Authenticator = authObj
 	case 4:
-		cfg.AuthProvider = func(h *gocql.HostInfo) (gocql.Authenticator, error) { return pa, nil }
+		// the same object for every connection, as a caller holding one authenticator does
+		cfg.AuthProvider = func(h *gocql.HostInfo) (gocql.Authenticator, error) { return authObj, nil }
 	}
 
 	sess, serr, finished := secPump(k, 30*time.Second, each, func() (*gocql.Session, error) { return gocql.NewSession(*cfg) })
@@ -1367,6 +1582,9 @@ func secAuth(e *Env) {
 	connected := serr == nil && sess != nil
 	k.Rec("result connected=%v auth_responses=%d", connected, len(toks))
 	desc := fmt.Sprintf("[node demands %q (%s), client %s, credentials #%d]", class, classNames[ci], clientNames[cli], cred)
+	if form != 0 || listVar != 0 {
+		desc = fmt.Sprintf("[node demands %q (%s), client %s, authenticator given as %s, AllowedAuthenticators %s %q, credentials #%d]", class, classNames[ci], clientNames[cli], secAuthForms[form], secListVarNames[listVar], allowedBefore, cred)
+	}
 
 	check := func() bool {
 		// credentials only to an approved authenticator, and as SASL PLAIN
@@ -1420,6 +1638,18 @@ func secAuth(e *Env) {
 			break
 		}
 		check() // connections opened later (pool fill) obey the same rules
+	}
+	if d, isDeleg := authObj.(*secDelegAuth); isDeleg && hasAuth && d.challenges.Load() > 0 {
+		k.Probe("auth.delegating-wrapper-challenged")
+	}
+	if authPA != nil {
+		same := authPA.Username == user && authPA.Password == pass && len(authPA.AllowedAuthenticators) == len(allowedBefore) && (authPA.AllowedAuthenticators == nil) == (allowed == nil)
+		for i := 0; same && i < len(allowedBefore); i++ {
+			same = authPA.AllowedAuthenticators[i] == allowedBefore[i]
+		}
+		if !same {
+			k.Probe("auth.authenticator-object-modified") // observed, not judged: the property does not speak about it
+		}
 	}
 	secFinish(k, cl, nil, each, sess, base)
 }
